@@ -7,6 +7,9 @@ HERE = os.path.dirname(os.path.dirname(os.path.abspath(__file__)))
 
 CLAIMED = {
     # id: (technique, level text, level note, design_ref)
+    'C07': ('CBMC/DFCC function + loop contracts over a ghost-versioned state model, on code extracted from /repo each run',
+            'proof for lsearchk_t::get/update and the backtrack, LeMarechal, Fletcher(+zoom) bodies: success is returned only right after the advertised predicates were evaluated true on the current trial point with the returned step, the state is then the valid evaluation at x+t*d, a non-descent direction is refused with the state untouched, every loop terminates',
+            'state.update(x) = one evaluation at x (assumed), interpolation havocked, parameters inside their registered domains; success on quadratics and CG_DESCENT/More-Thuente bodies not decided', '7/C07'),
     'C11': ('CBMC/DFCC function contract on code extracted from /repo each run',
             'proof of the early-stopping monitor transition (whole abstract state in the postcondition, frame = its three members) for every observation and prior state; statistics-equality clauses not decided',
             'mean_error assumed deterministic; clang AST + cxx2c printer + CBMC trusted', '7/C11'),
